@@ -14,6 +14,10 @@ REAL_LRU = ['container/lru (rewritten copy: cooperative mutex, in-flight channel
 SIM_LRU = SIM_COMMON + ['create function and delete callback (harness functions: park at entry/exit, sleep simulated time, fail by plan, record arguments)']
 
 PROPS = {
+    'C17': dict(world='blocks', quick=dict(budget_s=22), thorough=dict(budget_s=600),
+                real=['container/bytes.Blocks (rewritten copy: cooperative mutex, yields at atomics)', 'files.MMFile on a real file in the scratch directory (part of the runs)'],
+                simulated=SIM_COMMON + ['disk: SimBuffer, a byte slice behind bytes.Buffer that parks on every Buffer() call, fails planned calls and is snapshotted (= the bytes a crashed process leaves behind) at arbitrary steps, including steps with operations in flight'],
+                assumptions=['scheduler fairness bound F', 'block sizes 1..64 in the quick tier; 128..1024 and 4096 (one segment, few runs) in the thorough tier; 8192 and 12288 are not run (a segment is 0.5-1.2 GiB)', 'a reopened snapshot must equal the model give or take the operations in flight at the snapshot']),
     'C08': dict(world='lru', quick=dict(budget_s=15), thorough=dict(budget_s=420), real=REAL_LRU, simulated=SIM_LRU,
                 assumptions=['one task: the scheduler has nothing to choose; what is sampled is call sequences, capacities 1-4 and 64, create-function failures and clock jumps (ExpirableCache)', 'expiry instants and jump sizes never coincide exactly']),
     'C09': dict(world='lru', quick=dict(budget_s=22), thorough=dict(budget_s=600), real=REAL_LRU, simulated=SIM_LRU,
